@@ -35,7 +35,10 @@ Inductive input :=
 | I9inv (legacy has_did : bool) (keys : list string)   (* inbound invitation of DID Exchange / legacy connection *)
 | I9resp (sig : option sigview)        (* legacy connection response once the invitee has sent its request *)
 | I9keys (keys : list (bool * bool * bool * bool))   (* legacy request: recipient keys of the IndyAgent service *)
-| I9meta (typed : list bool).          (* introduce: recipients seen by a repeated request *)
+| I9meta (typed : list bool)           (* introduce: recipients seen by a repeated request *)
+| I10 (base_mode : bool) (typ ctx : option json)   (* verifiable.ParseCredential of a JSON credential: its "type" and
+                                          "@context" members; base_mode: WithBaseContextValidation *)
+| I11 (i : e4_in).                     (* jwt.Parse with the jwt verifier *)
 
 Record case := { c_in : input; c_obs : obs }.
 
@@ -79,6 +82,8 @@ Definition run (v : variant) (i : input) : gout :=
   | I9resp sig => E9_legacy_response v [(false, true)] sig true
   | I9keys keys => E9_convert_keys v keys
   | I9meta typed => E9_meta_recipients v typed
+  | I10 m t c => E10 v m t c
+  | I11 x => E11 v x true
   end.
 
 Definition agrees (g : gout) (o : obs) : bool :=
